@@ -878,6 +878,24 @@ theorem change_during_fanout_announced (cap : Kind → Cap) (ls : List Label) (f
     rw [hfin] at hthrough ⊢
     exact no_lost_notification cap _ sid k hthrough
 
+/-- … and (3) spelled out: in the state reached, the next snapshot of kind `k` contains the session if
+it is entitled then — the notification it gets is sent after the change, however the blocked fan-out
+and everything else was scheduled in between. -/
+theorem change_during_fanout_reaches (cap : Kind → Cap) (ls : List Label) (f : FSet) (e : Eff) (k : Kind)
+    (sid : Nat) (he : ¬(e = .noop ∨ (e = .remove ∧ (final cap ls).cnt f = 0))) (hk : featureKind f = some k)
+    (hg : gateSend (final cap ls) k = true) (hs : sid ∈ (final cap ls).sessions.map Prod.fst)
+    (mid : List Label) (hq : quiet k sid mid)
+    (hent : entitled (run (change (final cap ls) f e) mid).1 sid k)
+    (hp : 0 < ((run (change (final cap ls) f e) mid).1.ks k).pending) :
+    ∃ to, (step (run (change (final cap ls) f e) mid).1 (.cbrun k)).2 = [.changed k to] ∧ sid ∈ to.map Send.sid := by
+  have ho := (change_during_fanout_announced cap ls f e k sid he hk hg hs mid hq).2.1
+  have hfin : (run (change (final cap ls) f e) mid).1 = final cap (ls ++ (.change f e :: mid)) := by
+    simp only [final]
+    rw [run_append]
+    simp only [run, step]
+  rw [hfin] at ho hent hp ⊢
+  exact at_least_one_after_burst cap _ sid k ho hent hp
+
 /-- A label other than a snapshot adds nothing to the outstanding writes of kind `k`. -/
 theorem step_inflight (s : Server) (l : Label) (k : Kind) (x : Send)
     (h : x ∈ ((step s l).1.ks k).inflight) :
